@@ -45,9 +45,15 @@ PROP = "C20"
 LEVEL = "model_checking"
 BUCKET = "bkt"
 PREFIX = "pre/fix"
-CONFIGS = (("s3", ""), ("s3prefix", PREFIX))
+# "s3d": the configured prefix equals the leading component of table-relative paths ("d/a" lives under key "d/d/a")
+CONFIGS = (("s3", ""), ("s3prefix", PREFIX), ("s3d", "d"))
 # objects that are NOT part of the table of the prefixed configuration
 FOREIGN = {"pre/fixx/d/a": b"F1", "pre/fi": b"F2", "zzz/d/a": b"F3", "d/a": b"F4", "pre/fix": b"F5"}
+FOREIGN_D = {"d2/a": b"G1", "dd/a": b"G2", "a": b"G3", "zzz/d/a": b"G4", "d": b"G5"}
+
+
+def foreign_of(cfg: str) -> Dict[str, bytes]:
+    return {"s3": {}, "s3prefix": FOREIGN, "s3d": FOREIGN_D}[cfg]
 
 KEYS = ["a", "d/a", "d/ab", "d2/a", "d/e/f", "d"]
 LIST_PREFIXES = ["d", "d/", "d2", "", "d/e"]
@@ -127,8 +133,8 @@ class Ctx:
 
         prefix = dict(CONFIGS)[cfg]
         objs = {s3key(prefix, k): Obj(b, T0) for k, b in files.items()}
-        if prefix:
-            for k, b in FOREIGN.items():
+        if True:
+            for k, b in foreign_of(cfg).items():
                 objs[k] = Obj(b, T0)
         s3 = self.worlds[cfg].s3
         s3.gates, s3.after = [], []
@@ -390,16 +396,16 @@ def transition(ctx: Ctx, rep: Report, st: State, path: List[Any], op: Tuple[Any,
     post_l = ctx.snap_local()
     post_s = {cfg: ctx.snap_s3(cfg) for cfg, _p in CONFIGS}
     rep.add("transitions")
-    rep.add("a_backend_operations", 3)
-    rep.nontrivial(("a", op[0], cls, ocls(obs["local"]), ocls(obs["s3"]), ocls(obs["s3prefix"])))
+    rep.add("a_backend_operations", 1 + len(CONFIGS))
+    rep.nontrivial(("a", op[0], cls, ocls(obs["local"]), ocls(obs["s3"]), ocls(obs["s3prefix"]), ocls(obs["s3d"])))
     if len(rep.samples) < 2 and len(path) >= 2 and tuple(op) in (("list_files", "d"), ("exists", "d")) and len(files) >= 2:
         rep.sample({"part": "a", "sequence": seq, "observed": {w: o for w, o in obs.items()}})
 
-    changed = post_l != st or any(dict(st[0]) != r or (cfg == "s3prefix" and f != FOREIGN)
+    changed = post_l != st or any(dict(st[0]) != r or f != foreign_of(cfg)
                                   for cfg, (r, f) in post_s.items())
     # objects outside the configured prefix are never touched (table-relative key mapping)
     for cfg, (_r, foreign) in post_s.items():
-        if cfg == "s3prefix" and foreign != FOREIGN:
+        if foreign != foreign_of(cfg):
             rep.violation({"part": "a", "op": op[0], "arg_class": cls, "pair": "s3-vs-spec",
                            "problem": "object_outside_prefix_touched"},
                           {"sequence": seq, "config": cfg, "foreign_after": sorted(foreign)})
@@ -467,7 +473,7 @@ def validate_trace(ctx: Ctx, st: State, path: List[Any]) -> None:
         raise HarnessError(f"witness {path!r} does not reproduce state {st!r}: local is {got!r}")
     for cfg, _p in CONFIGS:
         rel, foreign = ctx.snap_s3(cfg)
-        if rel != dict(st[0]) or (cfg == "s3prefix" and foreign != FOREIGN):
+        if rel != dict(st[0]) or foreign != foreign_of(cfg):
             raise HarnessError(f"witness {path!r} does not reproduce state on {cfg}: {sorted(rel)}")
 
 
@@ -657,8 +663,9 @@ def run_programs(payload: Tuple[Any, ...]) -> Dict[str, Any]:
 # ---------------------------------------------------------------------------
 C_STORE = {"d/a": b"hello", "d/ab": b"yy", "d2/a": b"x", "j": b'{"a": 1}'}
 
-TRANSIENT_QUICK = [("InternalError", 500), ("SlowDown", 503), ("500", 500)]
-TRANSIENT_MORE = [("ServiceUnavailable", 503), ("RequestTimeout", 400), ("503", 503), ("BotoCoreError:EndpointConnectionError", 0)]
+# transient errors as S3 really sends them - including the ones that carry a 4xx HTTP status
+TRANSIENT_QUICK = [("InternalError", 500), ("SlowDown", 503), ("500", 500), ("RequestTimeout", 400)]
+TRANSIENT_MORE = [("ServiceUnavailable", 503), ("OperationAborted", 409), ("503", 503), ("BotoCoreError:EndpointConnectionError", 0)]
 PERMANENT_QUICK = ["AccessDenied", "NoSuchBucket", "403"]
 
 
@@ -781,9 +788,15 @@ def run_faults(payload: Tuple[Any, ...]) -> Dict[str, Any]:
         for case, method, call, targets, retried in CASES:
             base, _n, base_store, base_att = run_faulted(ctx, cfg, call, None, 0, "", 0, "before")
             if base[0] != "ok":
-                raise HarnessError(f"fault-free run of {case} failed: {base!r}")
+                # the same call on the same stored objects succeeds on every other configuration
+                # (and on the local backend in part a): a failure without any injected fault is a
+                # key-mapping error of this configuration, not a harness condition
+                rep.violation({"part": "c", "method": method, "request": targets[0], "fault": "none",
+                               "problem": "fault_free_operation_failed"},
+                              {"case": case, "config": cfg, "outcome": repr(base)})
+                continue
             outside = {k[len("<outside-table>:"):]: v for k, v in base_store.items() if k.startswith("<outside-table>:")}
-            if outside != (FOREIGN if cfg == "s3prefix" else {}):
+            if outside != foreign_of(cfg):
                 rep.violation({"part": "c", "method": method, "request": targets[0], "fault": "none",
                                "problem": "object_outside_prefix_touched"},
                               {"case": case, "config": cfg, "outside_after": sorted(outside)})
@@ -870,7 +883,13 @@ def run_faults(payload: Tuple[Any, ...]) -> Dict[str, Any]:
                 s3.page_size = 1000
 
         base_l, base_n = listing(10 ** 9, 0, "", 0)
-        if base_l[0] != "ok" or base_n < 3 or len(base_l[1]) != 5:
+        if base_l[0] == "ok" and len(base_l[1]) != 5:
+            # five objects were stored under "d/" a few lines above; any other answer without a
+            # fault is a wrong listing, not a harness condition
+            rep.violation({"part": "c", "method": "list_files", "request": "LIST", "fault": "none",
+                           "problem": "fault_free_listing_wrong"}, {"config": cfg, "listing": base_l[1]})
+            return rep.part()
+        if base_l[0] != "ok" or base_n < 3:
             raise HarnessError(f"paged listing template: {base_l} in {base_n} requests")
         for code, status in transient:
             for first_bad in range(1, base_n + 1):
